@@ -8,6 +8,7 @@ from vf.mon import p1_mon
 
 
 _cases = 0
+_buffers: dict = {}
 
 
 def category(field: str) -> str:
@@ -144,14 +145,37 @@ def check_case(prop: str, case, ctx, extra_tag: str = "") -> bool:
                     ctx.violation(sig_for(prop, f"{prop}:two-step:{label}-normalisation-differs", problem), f"{case.vendor} {case.layout}: normalising the parsed object ({label}): {fld}: {problem}", wit)
                     ok = False
                     break
+    # one long-lived receive buffer per message length, refilled in place and handed to the decoder again (the same object, other octets)
+    for form, data, expect in (("body", case.body, case.expect_body), ("frame", case.frame, case.expect_frame)):
+        buf = _buffers.get((case.vendor, form, len(data)))
+        if buf is None:
+            _buffers[(case.vendor, form, len(data))] = bytearray(data)
+            if len(_buffers) > 400:
+                _buffers.clear()
+            continue
+        buf[:] = data
+        mod2 = importlib.import_module(f"han.{case.vendor}")
+        try:
+            got = (mod2.decode_notification_body if form == "body" else mod2.decode_frame_content)(buf)
+        except Exception:
+            ctx.count("reused_buffer_decodes_that_raised(not judged)")
+            continue
+        ctx.count("decodes_from_a_refilled_buffer_object")
+        if res[form][1] is None:
+            for fld, problem in dlms_gen.compare_dict(got, expect):
+                ctx.violation(sig_for(prop, f"{prop}:{form}:refilled-buffer-decodes-to-earlier-values", problem), f"{case.vendor} {case.layout} {form}: decoded from a bytearray that held another message of the same length before: {fld}: {problem}", wit)
+                ok = False
+                break
     # the application's decimal context (precision, rounding) is not the library's business: every fifth case is decoded again under one
     global _cases
     _cases += 1
     if _cases % 5 == 0:
         import decimal
 
-        prec = (3, 6, 9, 4)[(_cases // 5) % 4]
-        with decimal.localcontext(decimal.Context(prec=prec, rounding=(decimal.ROUND_DOWN, decimal.ROUND_HALF_EVEN)[(_cases // 20) % 2])):
+        prec = (3, 6, 9, 4, 28)[(_cases // 5) % 5]
+        # (the fifth variant keeps the default precision and switches on the strict mode against mixing float and Decimal)
+        traps = [decimal.FloatOperation, decimal.InvalidOperation, decimal.DivisionByZero, decimal.Overflow] if prec == 28 else None
+        with decimal.localcontext(decimal.Context(prec=prec, rounding=(decimal.ROUND_DOWN, decimal.ROUND_HALF_EVEN)[(_cases // 20) % 2], traps=traps)):
             res3 = decode_both(case.vendor, case)
         ctx.count("cases_decoded_again_under_a_low_precision_decimal_context")
         for form, expect in (("body", case.expect_body), ("frame", case.expect_frame)):
